@@ -1425,3 +1425,193 @@ func genKeepAlive(prop string) func(tier string, seed uint64, idx int) interface
 		return x.sc
 	}
 }
+
+// genTeardown is the C16 profile: end cause x buffer condition x order.
+func genTeardown(prop string) func(tier string, seed uint64, idx int) interface{} {
+	return func(tier string, seed uint64, idx int) interface{} {
+		x := newGen(seed, prop, idx, tier)
+		r := x.r
+		x.sc.Profile = "teardown"
+		x.knobs()
+		x.sc.Knobs.BufSize = 16384
+		x.sc.Knobs.LinkCap = []int{64, 256, 1024}[r.Intn(3)]
+		x.alphabet(false)
+		cond := r.Intn(4) // 0 idle, 1 own out-ring full, 2 in-ring full behind a third party, 3 cross-blocked pair
+		nc := 4
+		x.seq = make([]int, nc)
+		x.pid = make([]int, nc)
+		x.sc.Knobs.CloseServer = r.Bool(1, 6)
+		mk := func(ci int, ka int, clean bool, will bool) Op {
+			op := Op{K: "connect", CID: fmt.Sprintf("t%d", ci), Clean: clean, KA: ka}
+			if will {
+				op.Will = &Will{Topic: fmt.Sprintf("will/t%d", ci), QoS: byte(r.Intn(3)), Size: 8 + r.Intn(40)}
+			}
+			return op
+		}
+		flood := func(ci int, topic string, total int) []Op {
+			var ops []Op
+			for sent := 0; sent < total; {
+				x.seq[ci]++
+				sz := 600 + r.Intn(1400)
+				op := Op{K: "pub", Topic: topic, QoS: byte(r.Intn(2)), Size: sz, Seq: x.seq[ci], NoWait: true}
+				if op.QoS > 0 {
+					op.PID = x.nextPID(ci)
+				}
+				ops = append(ops, op)
+				sent += sz
+			}
+			return ops
+		}
+		cause := func(target int) []Op {
+			// how the connection of client `target` ends (executed by the killer)
+			switch r.Intn(3) {
+			case 0:
+				return []Op{{K: "kill", Target: target, How: "fin"}}
+			case 1:
+				return []Op{{K: "kill", Target: target, How: "rst"}}
+			default:
+				return []Op{{K: "sleep", D: 9000}} // half-open: the keep-alive (3 s) must notice
+			}
+		}
+		ka := func() int { return 3 }
+		a := Client{}
+		b := Client{}
+		killer := Client{Role: "killer"}
+		prober := Client{Role: "prober"}
+		switch cond {
+		case 0:
+			a.Ops = append(a.Ops, mk(0, ka(), r.Bool(1, 2), r.Bool(1, 2)), x.sub(0, 2))
+			b.Ops = append(b.Ops, mk(1, ka(), r.Bool(1, 2), r.Bool(1, 2)), x.pub(1, 2), x.pub(1, 2))
+			switch r.Intn(4) {
+			case 0:
+				a.Ops = append(a.Ops, Op{K: "disc"})
+			case 1:
+				a.Ops = append(a.Ops, Op{K: "raw", Raw: x.garbage()}, Op{K: "waitdead"})
+			case 2:
+				a.Ops = append(a.Ops, Op{K: "close"})
+			default:
+				a.Ops = append(a.Ops, Op{K: "sleep", D: 9000})
+			}
+			killer.Ops = append(killer.Ops, Op{K: "barrier"})
+			killer.Ops = append(killer.Ops, cause(1)...)
+		case 1, 2:
+			// a: subscriber that stops reading; b: publisher flooding it
+			a.Ops = append(a.Ops, mk(0, ka(), r.Bool(1, 2), r.Bool(1, 2)), Op{K: "sub", PID: 1, Filters: []string{"t/#"}, QoSs: []byte{byte(r.Intn(3))}}, Op{K: "stall"}, Op{K: "barrier"}, Op{K: "barrier"})
+			a.AckMode = "none"
+			total := 16384 + 4096 + x.sc.Knobs.LinkCap
+			if cond == 2 {
+				total = 3*16384 + 8192
+			}
+			b.Ops = append(b.Ops, mk(1, ka(), r.Bool(1, 2), r.Bool(1, 2)), Op{K: "barrier"})
+			b.Ops = append(b.Ops, flood(1, "t/x", total)...)
+			killer.Ops = append(killer.Ops, Op{K: "barrier"}, Op{K: "barrier"})
+			first, second := 0, 1
+			if r.Bool(1, 2) {
+				first, second = 1, 0
+			}
+			killer.Ops = append(killer.Ops, cause(first)...)
+			if r.Bool(1, 2) {
+				killer.Ops = append(killer.Ops, Op{K: "barrier"})
+			}
+			if r.Bool(2, 3) {
+				killer.Ops = append(killer.Ops, cause(second)...)
+			} else if second == 0 {
+				killer.Ops = append(killer.Ops, Op{K: "resumeother", Target: 0})
+			}
+		default:
+			// cross-blocked pair: each subscribes to what the other floods
+			a.Ops = append(a.Ops, mk(0, ka(), r.Bool(1, 2), r.Bool(1, 2)), Op{K: "sub", PID: 1, Filters: []string{"b/#"}, QoSs: []byte{byte(r.Intn(2))}}, Op{K: "stall"}, Op{K: "barrier"})
+			b.Ops = append(b.Ops, mk(1, ka(), r.Bool(1, 2), r.Bool(1, 2)), Op{K: "sub", PID: 1, Filters: []string{"a/#"}, QoSs: []byte{byte(r.Intn(2))}}, Op{K: "stall"}, Op{K: "barrier"})
+			a.AckMode, b.AckMode = "none", "none"
+			a.Ops = append(a.Ops, flood(0, "a/x", 3*16384)...)
+			b.Ops = append(b.Ops, flood(1, "b/x", 3*16384)...)
+			killer.Ops = append(killer.Ops, Op{K: "barrier"}, Op{K: "barrier"})
+			first, second := 0, 1
+			if r.Bool(1, 2) {
+				first, second = 1, 0
+			}
+			killer.Ops = append(killer.Ops, cause(first)...)
+			if r.Bool(1, 2) {
+				killer.Ops = append(killer.Ops, Op{K: "barrier"})
+			}
+			killer.Ops = append(killer.Ops, cause(second)...)
+		}
+		killer.Ops = append(killer.Ops, Op{K: "barrier"}, Op{K: "sleep", D: 100}, Op{K: "barrier"})
+		// prober: after everything, look at what is left of the two identities
+		prober.Ops = append(prober.Ops, Op{K: "connect", CID: "prober", Clean: true, KA: 600}, Op{K: "sub", PID: 1, Filters: []string{"will/#"}, QoSs: []byte{2}})
+		for i := 0; i < 6; i++ {
+			prober.Ops = append(prober.Ops, Op{K: "barrier"})
+		}
+		x.seq[3]++
+		prober.Ops = append(prober.Ops, Op{K: "pub", Topic: "t/x", QoS: 1, PID: 9, Size: 16, Seq: x.seq[3]}, Op{K: "ping"})
+		x.sc.Clients = append(x.sc.Clients, a, b, killer, prober)
+		return x.sc
+	}
+}
+
+// genFanIn is the C17 / C12 (broker role) profile: several concurrent
+// publishers (using equal packet identifiers) deliver to a few shared, partly
+// slow subscribers; payload sizes make packets straddle the end of the 16 KiB
+// outgoing ring.
+func genFanIn(prop string) func(tier string, seed uint64, idx int) interface{} {
+	return func(tier string, seed uint64, idx int) interface{} {
+		x := newGen(seed, prop, idx, tier)
+		r := x.r
+		x.sc.Profile = "fanin"
+		x.knobs()
+		x.sc.Knobs.BufSize = 16384
+		x.sc.Knobs.LinkCap = []int{128, 1024, 8192, 65536}[r.Intn(4)]
+		x.alphabet(false)
+		npub := 2 + r.Intn(4)
+		nsub := 1 + r.Intn(3)
+		nc := npub + nsub
+		x.seq = make([]int, nc)
+		x.pid = make([]int, nc) // all publishers start at identifier 1
+		for ci := 0; ci < nsub; ci++ {
+			cl := Client{}
+			if r.Bool(1, 4) {
+				cl.AckMode = "none"
+			}
+			f := []string{"f/#", "f/+", "#"}[r.Intn(3)]
+			cl.Ops = append(cl.Ops, x.connect(ci, true), Op{K: "sub", PID: 1, Filters: []string{f}, QoSs: []byte{byte(r.Intn(3))}}, Op{K: "barrier"})
+			if r.Bool(1, 3) {
+				cl.Ops = append(cl.Ops, Op{K: "stall"}, Op{K: "sleep", D: 0}, Op{K: "sleep", D: 0}, Op{K: "resume"})
+			}
+			cl.Ops = append(cl.Ops, Op{K: "barrier"}, Op{K: "ping"})
+			x.sc.Clients = append(x.sc.Clients, cl)
+		}
+		for ci := nsub; ci < nc; ci++ {
+			cl := Client{}
+			cl.Ops = append(cl.Ops, x.connect(ci, true), Op{K: "barrier"})
+			n := 3 + r.Intn(12)
+			topic := fmt.Sprintf("f/p%d", ci)
+			if r.Bool(1, 3) {
+				topic = "f/shared"
+			}
+			for i := 0; i < n; i++ {
+				x.seq[ci]++
+				sz := x.size()
+				if r.Bool(1, 2) {
+					sz = 1500 + r.Intn(3000)
+				}
+				op := Op{K: "pub", Topic: topic, QoS: byte(r.Intn(3)), Size: sz, Seq: x.seq[ci], NoWait: r.Bool(1, 2)}
+				if op.QoS > 0 {
+					op.PID = x.nextPID(ci)
+				}
+				if op.QoS == 2 {
+					op.NoWait = false
+				}
+				cl.Ops = append(cl.Ops, op)
+			}
+			cl.Ops = append(cl.Ops, Op{K: "ping"}, Op{K: "barrier"})
+			x.sc.Clients = append(x.sc.Clients, cl)
+		}
+		if r.Bool(1, 3) {
+			for i := 0; i < 4; i++ {
+				x.inSeq++
+				x.sc.Inproc = append(x.sc.Inproc, InprocOp{K: "pub", Topic: "f/inproc", QoS: byte(r.Intn(3)), Size: 1000 + r.Intn(3000), Seq: x.inSeq})
+			}
+		}
+		return x.sc
+	}
+}
